@@ -239,8 +239,10 @@ Lemma f_names_spec st h : ext st (fst (fst (f_names st h))) /\ st_store (fst (fs
 Proof.
   unfold f_names. destruct (h_names h).
   - simpl. (split; [|split]); auto using ext_refl. intros X. exfalso. exact (fired_refl _ X).
-  - destruct (snames_spec st (h_path h) (h_mode h)) as (E & S & F). destruct (snames st _ _) as [st1 r]. cbn [fst snd] in *.
-    (split; [|split]); auto.
+  - destruct (h_fresh h).
+    + simpl. (split; [|split]); auto using ext_refl. intros X. exfalso. exact (fired_refl _ X).
+    + destruct (snames_spec st (h_path h) (h_mode h)) as (E & S & F). destruct (snames st _ _) as [st1 r]. cbn [fst snd] in *.
+      (split; [|split]); auto.
 Qed.
 
 Theorem remove_fault_is_reported st p :
